@@ -3,6 +3,8 @@ import J5V.Print.TextString
 import J5V.Print.RefName
 import J5V.Print.OptionText
 import J5V.Print.Order
+import J5V.Print.Layout
+import J5V.Print.Wire
 /-! Line-protocol driver for the print cluster (C05), core only.
 One op per input line, one result per output line; see /verif/harness/PROTOCOL-print.md. -/
 open J5V.Go J5V.Print
@@ -126,8 +128,20 @@ partial def parsePOpts (n : Nat) (toks : List String) (acc : List OptionText.POp
     parsePOpts (n - 1) rest' (ps.reverse ++ acc)
   | _ => none
 
+/-- `file <k> <input op …> @ <summary>`: the text the model prints for the summarised descriptor -/
+def stepFile (toks : List String) : String :=
+  match (toks.dropWhile (· != "@")).drop 1 with
+  | [] => "bad-op"
+  | sum =>
+    match Wire.pFile sum with
+    | none => "bad-op"
+    | some (gen, f) =>
+      if !f.determined then "unspecified"
+      else toHexW (Wire.strToBytes (Layout.printText gen f))
+
 def step (line : String) : String :=
   match line.trimAscii.toString.splitOn " " with
+  | "file" :: rest => stepFile rest
   | ["str", h] => match fromHex h with
     | some bs =>
       let lit := TextString.textString bs
@@ -163,7 +177,10 @@ def step (line : String) : String :=
       let (sub, root) := OptionText.simplified full t (treeDepth t)
       let name := OptionText.optionName rel sub
       let lines := OptionText.optionStmt 0 name (single == "1") root
-      if stmtTokensOk name lines root then joinLines lines else "model-inconsistent-tokens"
+      -- every statement (one per element of a repeated option) carries the tokens of its value
+      let ok := (OptionText.statements root).all fun v =>
+        stmtTokensOk name (OptionText.optionStmt1 0 name (single == "1") v) v
+      if ok then joinLines lines else "model-inconsistent-tokens"
     | _, _, _ => "bad-op"
   | "optfield" :: head :: number :: _bytes :: fname :: json :: n :: rest =>
     match hexStr head, hexStr fname, fromHex json, n.toNat? with
